@@ -2,6 +2,7 @@ import Driver.Util
 import Martian.Vdr
 import Martian.VdrFs
 import Martian.VdrBuild
+import Martian.VdrVal
 
 /-! Line-protocol handler for properties C04 / C14 (the VDR model).
 
@@ -235,6 +236,25 @@ def parseTree : Nat → List String → Option (PTree × List String)
     pure (.pipe id (top == "1") ins ch ret rd rest, r)
   | _, _ => none
 
+/-- values: `n` null, `x` number/boolean, `s hex` string, `a elems`, `o elems`,
+elems `k hexkey value elems | e` -/
+def parseVal : Nat → List String → Option (Val × List String)
+  | 0, _ => none
+  | _ + 1, "n" :: r => some (.null, r)
+  | _ + 1, "x" :: r => some (.atom, r)
+  | _ + 1, "e" :: r => some (.vnil, r)
+  | _ + 1, "s" :: h :: r => do
+    let b ← pathOfHex h
+    pure (.str (String.ofList b), r)
+  | f + 1, "a" :: r => do let (e, r) ← parseVal f r; pure (.arr e, r)
+  | f + 1, "o" :: r => do let (e, r) ← parseVal f r; pure (.obj e, r)
+  | f + 1, "k" :: k :: r => do
+    let kb ← pathOfHex k
+    let (v, r) ← parseVal f r
+    let (m, r) ← parseVal f r
+    pure (.vcons (String.ofList kb) v m, r)
+  | _, _ => none
+
 def tokens (s : String) : List String := (s.splitOn " ").filter (· != "")
 
 def showTRefs (l : List TRef) : String :=
@@ -256,7 +276,12 @@ def handle (op : String) (args : List String) : Option String :=
     let (e, r1) ← parseBExp (te.length + 1) te
     let (t, r2) ← parseTy (tt.length + 1) tt
     if !r1.isEmpty || !r2.isEmpty then none
-    pure (showTRefs (typedRefs e t))
+    pure ((if wellTyped e t then "" else "illtyped ") ++ showTRefs (typedRefs e t))
+  | "names", [v] => do
+    let tv := tokens v
+    let (v, r) ← parseVal (tv.length + 1) tv
+    if !r.isEmpty then none
+    pure (showPaths (v.names.map String.toList).eraseDups)
   | "build", [tr] => do
     let tk := tokens tr
     let (tree, r) ← parseTree (tk.length + 1) tk
